@@ -275,6 +275,19 @@ pub fn fault_alphabet(prop: &str, n: usize, len: usize) -> Vec<(Act, Vec<FaultKi
             for s in Script::all_up_to(len.min(if n > 8 { 4 } else { usize::MAX })) {
                 v.push((IntoIter(s), d.clone()));
             }
+            // a destructor panicking while nth()/nth_back() skips elements of a drain / owning iterator
+            if n <= 8 {
+                for act in steps_probes(n, len, &[4, 5], 2) {
+                    v.push((act, d.clone()));
+                }
+            }
+            for m in 0..=n {
+                v.push((ExtendFromBuf(m, 0), d.clone()));
+                if n > 1 {
+                    v.push((ExtendFromBuf(m, n - 1), d.clone()));
+                }
+                v.push((IntoIterCloneFrom(len.min(1), m, m.min(1)), d.clone()));
+            }
             v.push((DropBuf, d.clone()));
         }
         "C06" => {
@@ -291,6 +304,13 @@ pub fn fault_alphabet(prop: &str, n: usize, len: usize) -> Vec<(Act, Vec<FaultKi
             v.push((CloneBuf, vec![K::Clone]));
             for s in Script::all_up_to(len.min(2)) {
                 v.push((IntoIterClone(s), vec![K::Clone]));
+            }
+            for m in 0..=n.min(6) {
+                for a in 0..=len.min(1) {
+                    for b in 0..=m.min(1) {
+                        v.push((IntoIterCloneFrom(a, m, b), vec![K::Clone]));
+                    }
+                }
             }
             v.push((ToVec, vec![K::Clone]));
             for m in 0..=n {
